@@ -7,10 +7,12 @@
 package main
 
 import (
+	"encoding/json"
 	"flag"
 	"fmt"
 	"os"
 	"sort"
+	"strings"
 
 	"verifharness/internal/idlgen"
 	"verifharness/internal/vl"
@@ -70,7 +72,22 @@ func main() {
 			fmt.Fprintln(os.Stderr, "-dir and -file are required")
 			os.Exit(2)
 		}
-		os.Exit(run(*repo, *dir, *seed, *tier, *nprog, *nwild, *keep, *file))
+		// a replay file names the seed of the run and the key of the failing input; defect keys are seed independent
+		var doc struct {
+			Seed uint64 `json:"seed"`
+			Key  string `json:"key"`
+		}
+		if b, err := os.ReadFile(*file); err != nil || json.Unmarshal(b, &doc) != nil {
+			fmt.Fprintln(os.Stderr, "cannot read replay file", *file)
+			os.Exit(2)
+		}
+		if doc.Seed != 0 {
+			*seed = doc.Seed
+		}
+		if strings.HasPrefix(doc.Key, "defect:") {
+			*nprog, *nwild = -1, 0
+		}
+		os.Exit(run(*repo, *dir, *seed, *tier, *nprog, *nwild, *keep, doc.Key))
 	default:
 		fmt.Fprintln(os.Stderr, "unknown subcommand", os.Args[1])
 		os.Exit(2)
